@@ -1,6 +1,7 @@
 package main
 
 import (
+	"fmt"
 	"strings"
 
 	"verifharness/docs"
@@ -192,5 +193,32 @@ func c10(r *mon.Run) {
 				t.Nontrivial("n:" + expr + ref.Canon(doc))
 			}
 		}}
-	r.Exec(exh, by, rnd)
+	// more than four arguments: 5..9 for every name (variadic functions accept them only if every one is well-typed)
+	many := mon.Workload{Name: "many-arguments", N: len(names) * 5 * 3,
+		Do: func(i int, t *mon.Tally) {
+			name := names[i/15]
+			k := 5 + (i/3)%5
+			kind := i % 3
+			args := make([]*gen.Expr, k)
+			for j := range args {
+				switch kind {
+				case 0:
+					args[j] = gen.LitJSON(`{"a":1}`)
+				case 1:
+					args[j] = gen.LitJSON(`null`)
+				default:
+					args[j] = gen.LitJSON(`{"a":1}`)
+					if j == k-1 || j == k/2 {
+						args[j] = gen.LitJSON(`"x"`) // one ill-typed argument late in the list
+					}
+				}
+			}
+			tree := gen.Func(name, args...)
+			cx := &caseCtx{r, t, "many-arguments", i}
+			res, _, _ := cx.runBoth(tree, gen.SpellTight(tree), map[string]interface{}{})
+			if isErr(res) {
+				t.Nontrivial(fmt.Sprint("many:", name, k, kind))
+			}
+		}}
+	r.Exec(exh, by, many, rnd)
 }
